@@ -609,9 +609,124 @@ def machine(holder):
     return Nesting
 
 
+# ------------------------------------------------------------------ task reassign: the caller changes its object between forward and backward
+
+def run_reassign(case):
+    """History: functional call on a method of the caller's object; the caller then puts a *new* tensor object under one of the
+    object's names (an ordinary thing to do with one's own object); then the backward pass through the earlier result runs.
+    Afterwards the object must hold exactly what the caller put there (identity, Parameter type, registration order), and the
+    gradient w.r.t. the tensor used in the forward call must be the same as without the reassignment (the backward works on the
+    tensors saved by the forward call)."""
+    import xitorch
+    from xitorch.optimize import rootfinder, equilibrium
+    from xitorch.integrate import quad, solve_ivp
+    from pbt.harness import xt_call
+    torch.manual_seed(0)
+    DT = torch.float64
+    kind, fn = case["kind"], case["functional"]
+    n = 3
+
+    def build():
+        g = gen.seeded(case["seed"])
+        A = 0.3 * torch.randn((n, n), generator=g, dtype=DT)
+        b = torch.randn((n,), generator=g, dtype=DT)
+        if kind == "nn":
+            class Mod(torch.nn.Module):
+                def __init__(self):
+                    super().__init__()
+                    self.A = torch.nn.Parameter(A.clone())
+                    self.b = torch.nn.Parameter(b.clone())
+
+                def forward(self, *a):
+                    return self.evaluate(*a)
+        else:
+            class Mod(xitorch.EditableModule):
+                def __init__(self):
+                    self.A = A.clone().requires_grad_()
+                    self.b = b.clone().requires_grad_()
+
+                def getparamnames(self, methodname, prefix=""):
+                    return [prefix + "A", prefix + "b"]
+
+        def evaluate(self, *a):
+            if fn == "rootfinder":
+                return a[0] + 0.5 * torch.tanh(self.A @ a[0]) - self.b
+            if fn == "equilibrium":
+                return 0.5 * torch.tanh(self.A @ a[0]) + self.b
+            if fn == "quad":
+                return torch.sin(self.A.reshape(-1)[:n] * a[0] + self.b)
+            return -(1.0 + self.A.diagonal() ** 2) * a[1] + self.b * torch.cos(a[0])      # solve_ivp: f(t, y)
+        Mod.evaluate = evaluate
+        return Mod(), g
+    m, g = build()
+    fcn = m.evaluate if kind == "em" else m.forward
+
+    def call(obj_fcn):
+        y0 = torch.zeros((n,), dtype=DT)
+        if fn == "rootfinder":
+            return rootfinder(obj_fcn, y0, method="broyden1", f_tol=1e-12)
+        if fn == "equilibrium":
+            return equilibrium(obj_fcn, y0, method="broyden1", f_tol=1e-12)
+        if fn == "quad":
+            return quad(obj_fcn, 0.0, 1.0, n=6)
+        return solve_ivp(obj_fcn, torch.linspace(0, 1, 4, dtype=DT), torch.ones((n,), dtype=DT), method="rk4")
+    which = case["which"]
+    labels = ["task=reassign", "functional=" + fn, "kind=" + kind, "which=" + which, "order=%d" % case["order"]]
+    second = case["order"] == 2
+    W = None
+
+    def grads(y, olds):
+        nonlocal W
+        if W is None:
+            W = torch.randn(y.shape, generator=g, dtype=DT)
+        gs = torch.autograd.grad((y * W).sum(), olds, create_graph=second, allow_unused=True)
+        if second:
+            terms = [gi.sum() for gi in gs if gi is not None and gi.requires_grad]
+            if terms:
+                gs = list(gs) + list(torch.autograd.grad(sum(terms), olds, allow_unused=True))
+        return [None if gi is None else gi.detach().clone() for gi in gs]
+    # reference run: no reassignment
+    y = xt_call(call, fcn, _where="forward")
+    ref = xt_call(grads, y, [m.A, m.b], _where="backward")
+    # the history under test
+    m2, g = build()
+    W = None
+    fcn2 = m2.evaluate if kind == "em" else m2.forward
+    y2 = xt_call(call, fcn2, _where="forward")
+    olds = [m2.A, m2.b]
+    newt = (getattr(m2, which).detach() * 1.5 + 0.25)
+    newt = torch.nn.Parameter(newt) if kind == "nn" else newt.requires_grad_()
+    setattr(m2, which, newt)
+    other = "b" if which == "A" else "A"
+    names_before = [nm for nm, _ in m2.named_parameters()] if kind == "nn" else None
+    got = xt_call(grads, y2, olds, _where="backward")
+    if getattr(m2, which) is not newt:
+        back = "the tensor of the forward call" if getattr(m2, which) is olds[0 if which == "A" else 1] else "another tensor"
+        return violation("reassigned_tensor_reverted", "after the backward pass the caller's object holds %s under %r instead of the tensor the caller "
+                         "had put there before the backward pass" % (back, which), labels)
+    if getattr(m2, other) is not olds[1 if which == "A" else 0]:
+        return violation("left_modified:identity", "the untouched tensor %r was replaced" % other, labels)
+    if kind == "nn":
+        if [nm for nm, _ in m2.named_parameters()] != names_before or not isinstance(m2.A, torch.nn.Parameter) or not isinstance(m2.b, torch.nn.Parameter):
+            return violation("left_modified:registration", "parameter registration changed: %r -> %r" % (names_before, [nm for nm, _ in m2.named_parameters()]), labels)
+    for k, (a, r_) in enumerate(zip(got, ref)):
+        if (a is None) != (r_ is None) or (a is not None and float((a - r_).abs().max()) > 1e-9 * (1 + float(r_.abs().max()))):
+            return violation("gradient_uses_reassigned_tensor", "gradient #%d w.r.t. the tensors of the forward call changed when the caller re-assigned %r "
+                             "between forward and backward: %s vs %s" % (k, which, None if a is None else a.reshape(-1)[:3].tolist(),
+                                                                          None if r_ is None else r_.reshape(-1)[:3].tolist()), labels)
+    return ok(labels, nontrivial=True)
+
+
+@st.composite
+def reassign_st(draw, tier="quick"):
+    return {"functional": draw(st.sampled_from(["rootfinder", "equilibrium", "quad", "solve_ivp"])), "kind": draw(st.sampled_from(["em", "nn"])),
+            "which": draw(st.sampled_from(["A", "b"])), "order": draw(st.sampled_from([1, 1, 2])), "seed": draw(st.integers(0, 2 ** 31 - 1))}
+
+
 def tasks(tier):
     return [
         Task("faults", strategy=scenario_st(tier), run=run_faults, examples={"quick": 800, "thorough": 10000}),
         Task("nesting", machine=machine, run=run_nesting, examples={"quick": 2000, "thorough": 16000},
              steps={"quick": 14, "thorough": 24}),
+        Task("reassign", strategy=reassign_st(tier), run=run_reassign, examples={"quick": 120, "thorough": 1000}),
     ]
